@@ -91,7 +91,9 @@ def FilePost (cfg : Cfg) (dst : Map DNode) (e : SEntry) (m : FileMeta) (res : Op
 structure EntryPost (cfg : Cfg) (scan : List SEntry) (dst : Map DNode) (e : SEntry) (res : Option DNode) : Prop where
   dir : e.kind = .dir → e.rel ≠ [] → res = some .dir
   dir_old : e.kind = .dir → dst.get? e.rel = some .dir → res = some .dir
-  dir_pre : e.kind = .dir → e.rel ≠ [] → dst.get? e.rel = none ∨ dst.get? e.rel = some .dir
+  /-- a selected directory completes only over nothing, a directory, or a symlink (which is replaced, fix 862af11) -/
+  dir_pre : e.kind = .dir → e.rel ≠ [] →
+    dst.get? e.rel = none ∨ dst.get? e.rel = some .dir ∨ ∃ s, dst.get? e.rel = some (.symlink s)
   file : ∀ m n, e.kind = .file m n → FilePost cfg dst e m res
   link_preserve : ∀ text tgt, e.kind = .symlink text tgt → cfg.links = .preserve → res = some (.symlink text)
   link_follow : ∀ text m, e.kind = .symlink text (.file m) → cfg.links = .follow → FilePost cfg dst e m res
@@ -142,21 +144,31 @@ theorem entryPost_of_taskPost {cfg : Cfg} {scan : List SEntry} {dst : Map DNode}
     have hpe : planEntry cfg dst e = ⟨.skip, e.rel, .dir⟩ := by
       unfold planEntry; simp [hk, hd]
     rw [(unchanged_of_taskPost tp (Or.inl (by rw [hpe]))).of_present (by rw [hd]; simp), hd]
-  have dirCreate : e.kind = .dir → dst.get? e.rel ≠ some .dir → planEntry cfg dst e = ⟨.create, e.rel, .dir⟩ := by
+  have dirCreate : e.kind = .dir → dst.get? e.rel ≠ some .dir →
+      (planEntry cfg dst e).act ≠ .skip ∧ (planEntry cfg dst e).payload = .dir := by
     intro hk hd
     unfold planEntry
     simp only [hk]
+    refine ⟨?_, trivial⟩
+    split
+    · rename_i h; exact absurd h hd
+    · simp
+    · simp
   refine ⟨fun hk hne => ?_, dirSkip, fun hk hne => ?_, fun m n hk => ?_, fun text tgt hk hl => ?_,
     fun text m hk hl => ?_, fun text tgt hk hl hnf => ?_, fun text tgt hk hl => ?_⟩
   · by_cases hd : dst.get? e.rel = some .dir
     · exact dirSkip hk hd
     · have hpe := dirCreate hk hd
-      exact tp.dir (by rw [hpe]; simp) (by rw [hpe]) (by rw [hpe]; exact hne)
+      exact tp.dir hpe.1 hpe.2 (by rw [planEntry_rel]; exact hne)
   · by_cases hd : dst.get? e.rel = some .dir
-    · exact Or.inr hd
+    · exact Or.inr (Or.inl hd)
     · have hpe := dirCreate hk hd
-      have := tp.dir_pre (by rw [hpe]; simp) (by rw [hpe]) (by rw [hpe]; exact hne)
-      rw [planEntry_rel] at this; exact this
+      have := tp.dir_pre hpe.1 hpe.2 (by rw [planEntry_rel]; exact hne)
+      rw [planEntry_rel] at this
+      rcases this with h | h | ⟨_, h⟩
+      · exact Or.inl h
+      · exact Or.inr (Or.inl h)
+      · exact Or.inr (Or.inr h)
   · exact filePost_of_taskPost (n := n) tp (by unfold planEntry; simp [hk])
   · cases hg : dst.get? e.rel with
     | none =>
